@@ -153,6 +153,26 @@ func c15Bombs(n int) map[string]string {
 		fmt.Fprintf(&b, "fragment H%d on XA { z }\n", n)
 		out[fmt.Sprintf("merged%d", rep)] = b.String()
 	}
+	// finding C15-9 (notes/hunt/C15 find3): a clock C_i that spreads marker fragments under the aliases x and y, the
+	// markers shifting by one position per level: every one of the 2^n alias paths reaches another merged set of
+	// selection sets, so that a check that memoises on merged sets never hits
+	if n <= 18 {
+		b.Reset()
+		b.WriteString("query Q { a { ...C0 } }\n")
+		for i := 0; i < n; i++ {
+			fmt.Fprintf(&b, "fragment C%d on XA { x: a2Ex { ...C%d ...M1a } y: a2Ex { ...C%d ...M1b } }\n", i, i+1, i+1)
+		}
+		fmt.Fprintf(&b, "fragment C%d on XA { z }\n", n)
+		for p := 1; p < n; p++ {
+			for _, ab := range []string{"a", "b"} {
+				fmt.Fprintf(&b, "fragment M%d%s on XA { x: a2Ex { ...M%d%s } y: a2Ex { ...M%d%s } }\n", p, ab, p+1, ab, p+1, ab)
+			}
+		}
+		if n >= 1 {
+			fmt.Fprintf(&b, "fragment M%da on XA { z }\nfragment M%db on XA { z }\n", n, n)
+			out["clock"] = b.String()
+		}
+	}
 	return out
 }
 
@@ -756,5 +776,6 @@ func runC15(c *Ctx) error {
 		c15Total(c, c15FuzzCase{Root: root, Query: text, Vars: vars, Via: via})
 	}
 	_ = http.StatusOK
+	c15GatewayBomb(c) // last: on a tree with the defect its planning goroutine keeps running
 	return nil
 }
